@@ -670,7 +670,7 @@ def evaluate__idiv_operator(self: XPathToken, context: ta.ContextType = None) ->
         raise self.error('FOAR0001' if op2 == 0 else 'FOAR0002') from None
     else:
         if result >= 0 or isinstance(op1, Decimal) or \
-                isinstance(op2, Decimal) or abs(op1) == abs(op2):
+                isinstance(op2, Decimal) or result * op2 == op1:
             return int(result)
         else:
             return int(result) + 1
